@@ -41,11 +41,13 @@ CONSTANTS MaxLen,     \* offered lists have 1..MaxLen items
           Classes,    \* size classes explored (subset of {"s","h","n","o"})
           MaxBig, MaxBl, MaxEx, MaxGrp,   \* budgets bounding the enumeration
           Pres,       \* numbers of transactions already in the block (e.g. {0,1})
+          Bls, Exs,   \* flag values explored (subsets of BOOLEAN)
+          Ops,        \* which operations are generated: subset of {"Pack", "Expire"}
           EmitOn
 
-VARIABLES items, h, pre, phase, sel, alt, kept, act
-vars == <<items, h, pre, phase, sel, alt, kept, act>>
-view == <<items, h, pre, phase, sel, alt, kept>>
+VARIABLES items, h, pre, cap, phase, sel, alt, kept, act
+vars == <<items, h, pre, cap, phase, sel, alt, kept, act>>
+view == <<items, h, pre, cap, phase, sel, alt, kept>>
 
 MaxTxAt(x) == IF x < LimitH THEN Lim0 ELSE Lim1
 Active(x) == x >= ForkH
@@ -55,7 +57,7 @@ Units(n, c) == CASE c = "s" -> n            \* every member one unit
                  [] c = "n" -> CapC - Eps
                  [] c = "o" -> CapC + 1
 Mk(n, c, b, e) == [n |-> n, sz |-> Units(n, c), c |-> c, bl |-> b, ex |-> e]
-Templates == {Mk(n, c, b, e) : n \in Ns, c \in Classes, b \in BOOLEAN, e \in BOOLEAN}
+Templates == {Mk(n, c, b, e) : n \in Ns, c \in Classes, b \in Bls, e \in Exs}
 
 -----------------------------------------------------------------------------
 \* The fold.  its: offered items; mt: count limit; cp: size cap; ac: rule active;
@@ -114,7 +116,7 @@ NBl(s) == Cardinality({i \in 1..Len(s) : s[i].bl})
 NEx(s) == Cardinality({i \in 1..Len(s) : s[i].ex})
 NGrp(s) == Cardinality({i \in 1..Len(s) : s[i].n > 1})
 
-Init == /\ items = <<>> /\ h \in Heights /\ pre \in Pres /\ phase = "build"
+Init == /\ items = <<>> /\ h \in Heights /\ pre \in Pres /\ cap = CapC /\ phase = "build"
         /\ sel = <<>> /\ alt = <<>> /\ kept = <<>>
         /\ act = IF EmitOn THEN ToJson([op |-> "Init"]) ELSE ""
 
@@ -123,45 +125,45 @@ Offer(t) ==
   /\ LET s == Append(items, t) IN
      /\ NBig(s) <= MaxBig /\ NBl(s) <= MaxBl /\ NEx(s) <= MaxEx /\ NGrp(s) <= MaxGrp
      /\ items' = s
-  /\ UNCHANGED <<h, pre, phase, sel, alt, kept>>
+  /\ UNCHANGED <<h, pre, cap, phase, sel, alt, kept>>
   /\ Emit([op |-> "Offer", item |-> t])
 
 AllTrue == [count |-> TRUE, size |-> TRUE, whole |-> TRUE, order |-> TRUE, nobl |-> TRUE, allowed |-> TRUE]
 
 Pack ==
-  /\ phase = "build" /\ Len(items) >= 1
-  /\ LET s1 == PackSel(items, pre, MaxTxAt(h), CapC, Active(h), "stop")
-         s2 == PackSel(items, pre, MaxTxAt(h), CapC, Active(h), "skip") IN
+  /\ "Pack" \in Ops /\ phase = "build" /\ Len(items) >= 1
+  /\ LET s1 == PackSel(items, pre, MaxTxAt(h), cap, Active(h), "stop")
+         s2 == PackSel(items, pre, MaxTxAt(h), cap, Active(h), "skip") IN
      /\ sel' = s1 /\ alt' = s2
      /\ Emit([op |-> "Pack", h |-> h, pre |-> pre, maxtx |-> MaxTxAt(h), active |-> Active(h),
-              cap |-> CapC, forkh |-> ForkH, limith |-> LimitH, lim0 |-> Lim0, lim1 |-> Lim1,
+              cap |-> cap, forkh |-> ForkH, limith |-> LimitH, lim0 |-> Lim0, lim1 |-> Lim1,
               items |-> items, allowed |-> <<s1, s2>>,
               open |-> s1 # s2,
               ret |-> [sel |-> IF s1 = s2 THEN s1 ELSE "*"],
               chk |-> AllTrue])
   /\ phase' = "packed"
-  /\ UNCHANGED <<items, h, pre, kept>>
+  /\ UNCHANGED <<items, h, pre, cap, kept>>
 
 Expire ==
-  /\ phase = "packed"
+  /\ "Expire" \in Ops /\ phase = "build" /\ Len(items) >= 1
   /\ kept' = ExpireSel(items)
   /\ Emit([op |-> "Expire", h |-> h, items |-> items,
            ret |-> [kept |-> ExpireSel(items)],
            chk |-> [whole |-> TRUE, order |-> TRUE, noexp |-> TRUE]])
   /\ phase' = "expired"
-  /\ UNCHANGED <<items, h, pre, sel, alt>>
+  /\ UNCHANGED <<items, h, pre, cap, sel, alt>>
 
 Next == (\E t \in Templates : Offer(t)) \/ Pack \/ Expire
 Spec == Init /\ [][Next]_vars
 
 -----------------------------------------------------------------------------
 TypeOK == /\ Len(items) <= MaxLen /\ phase \in {"build", "packed", "expired"}
-          /\ h \in Heights /\ pre \in Pres
+          /\ h \in Heights /\ pre \in Pres /\ cap = CapC
 
-Packed == phase \in {"packed", "expired"}
+Packed == phase = "packed"
 PackInv(s) == LET b == Block(items, s) IN
               /\ CountOKb(b, pre, MaxTxAt(h))
-              /\ SizeOKb(items, b, CapC)
+              /\ SizeOKb(items, b, cap)
               /\ WholeB(items, b) /\ OrderB(b)
               /\ NoBlB(items, b, Active(h))
 
@@ -177,7 +179,7 @@ SkipIsRemoval ==
   (Packed /\ Active(h)) =>
     LET idx == Clean(items, 1, <<>>)
         sub == [i \in 1..Len(idx) |-> items[idx[i]]]
-        r == PackSel(sub, pre, MaxTxAt(h), CapC, FALSE, "stop") IN
+        r == PackSel(sub, pre, MaxTxAt(h), cap, FALSE, "stop") IN
       sel = [i \in 1..Len(r) |-> idx[r[i]]]
 
 \* nothing that fits is left out before the first overflow; before the fork the
@@ -191,7 +193,7 @@ Greedy == Packed =>
                 cnt == pre + Len(Block(items, before))
                 sz == SumSz(items, Block(items, before), 1) IN
               /\ ~(Active(h) /\ items[k2].bl)
-              /\ (cnt + items[k2].n > MaxTxAt(h) \/ sz + items[k2].sz > CapC)
+              /\ (cnt + items[k2].n > MaxTxAt(h) \/ sz + items[k2].sz > cap)
 
 ExpireInv == phase = "expired" =>
   LET b == Block(items, kept) IN
